@@ -93,6 +93,8 @@ Allowed(op, res) ==
             /\ \A i \in DOMAIN r : IsAlnum(r[i])
             /\ \A i \in DOMAIN r : IsUpper(r[i]) =>
                  \E j \in AlnumIdx(s) : RankOf(s, j) = i /\ WordStart(s, j) /\ j # FirstWordStart(s)
+            \* ... and the initials of the words after the first ARE upper-case (that is what camelCase means)
+            /\ \A j \in AlnumIdx(s) : (WordStart(s, j) /\ j # FirstWordStart(s) /\ IsLetter(s[j])) => IsUpper(r[RankOf(s, j)])
       \* Snake/Kebab: idempotent and equal up to the delimiter
       [] op.n = "SnakeKebab" ->
             LET sn == res.s  kb == res.h.ll[1] IN
